@@ -4,7 +4,8 @@ from __future__ import annotations
 import itertools
 from typing import Any, Dict, Iterator, List, Optional, Tuple
 
-from ..explore import Stats, enumerate_inputs
+from .. import wire
+from ..explore import Stats, Violation, enumerate_inputs
 from ..world import install_seams, set_debug_logging
 from . import decoder as D
 
@@ -58,10 +59,84 @@ def spaces(tier: str) -> List[Tuple[str, Iterator[bytes], bool]]:
     return sp
 
 
+# the 8966-byte limit is the listener's: whatever is longer must not reach the decoder at all (the work budget is stated for
+# datagrams up to that size), with logging at any level
+LISTENER_SIZES = (1000, 8965, 8966, 8967, 9000, 20000, 65507)
+
+
+def listener_datagram(size: int) -> bytes:
+    """A well-formed response of exactly `size` bytes: a marker pointer and TXT records as padding."""
+    marker = ("PTR", "_m._tcp.local.", 1, 4500, f"size{size}._m._tcp.local.")
+    recs = [marker]
+    base = len(wire.response(recs))
+    left = size - base
+    k = 0
+    while left > 0:
+        # one TXT record costs 2 (pointer to the owner) + 10 + rdata bytes once the owner name has been spelled out
+        owner = "_m._tcp.local."
+        fixed = len(wire.response(recs + [("TXT", owner, 1, 4500, b"")])) - len(wire.response(recs))
+        n = min(left - fixed, 8000)
+        if n < 0:
+            return b""  # this size cannot be hit exactly with the padding scheme
+        recs.append(("TXT", owner, 1, 4500, bytes([k % 200 + 1]) * n))
+        left = size - len(wire.response(recs))
+        k += 1
+    data = wire.response(recs)
+    return data if len(data) == size else b""
+
+
+def listener_point(item: Tuple[int, bool, int]) -> Tuple[Optional[str], str]:
+    import sys
+    from ..world import World
+    size, debug, src_kind = item
+    data = listener_datagram(size)
+    if not data:
+        return None, "listener:size-not-constructible"
+    src = [("10.0.0.9", 5353), ("10.0.0.9", 40000), ("fe80::9", 5353, 0, 3)][src_kind]
+    with World(debug_log=debug) as w:
+        host = w.new_zeroconf(mode="dual")
+        w.advance(50)
+        n = [0]
+
+        def prof(frame: Any, event: str, arg: Any) -> None:
+            if event in ("call", "c_call"):
+                n[0] += 1
+
+        sys.setprofile(prof)
+        try:
+            w.net.inject(host, data, src, role="listen" if len(src) == 2 and src[1] == 5353 else "respond")
+        finally:
+            sys.setprofile(None)
+        w.settle()
+        cached = any(r.alias == f"size{size}._m._tcp.local." for r in host.zc.cache.entries_with_name("_m._tcp.local.") if r.type == 12)
+        excs = w.exceptions()
+    if excs:
+        return f"exception in the event loop: {excs[0]}", "listener:bad"
+    if size <= 8966 and not cached:
+        return f"a well-formed datagram of {size} bytes was not ingested", "listener:bad"
+    if size > 8966:
+        if cached:
+            return f"a datagram of {size} bytes (over the 8966-byte limit) was decoded and ingested", "listener:bad"
+        if n[0] > 120:
+            return (f"a datagram of {size} bytes (over the 8966-byte limit) cost {n[0]} calls in datagram_received: it must be "
+                    f"dropped unread"), "listener:bad"
+    return None, f"listener:{'ingested' if cached else 'ignored'}"
+
+
 def run(tier: str, seed: int) -> Tuple[Stats, str, List[str], Dict[str, Any]]:
     install_seams()
     stats = Stats()
     sizes = {}
+    items = [(s, dbg, k) for s in LISTENER_SIZES for dbg in (False, True) for k in (0, 1, 2)]
+    for it in items:
+        problem, oc = listener_point(it)
+        stats.executions += 1
+        stats.transitions += 1
+        stats.outcome(oc)
+        if problem:
+            stats.violations.append(Violation(f"C02 listener, {it[0]}-byte datagram (debug logging {it[1]}, source kind {it[2]}): "
+                                              f"{problem}", {"listener_item": list(it)}, {"check": "listener"}))
+    sizes["listener"] = len(items)
     for name, space, dbg in spaces(tier):
         before = stats.executions
         enumerate_inputs(check_debug if dbg else check, space, stats, name, chunk=1024)
@@ -87,6 +162,14 @@ def run(tier: str, seed: int) -> Tuple[Stats, str, List[str], Dict[str, Any]]:
 
 def replay(data: Dict[str, Any]) -> int:
     install_seams()
+    if "listener_item" in data:
+        it = data["listener_item"]
+        problem, oc = listener_point((int(it[0]), bool(it[1]), int(it[2])))
+        if problem:
+            print("VIOLATION reproduced:", problem)
+            return 1
+        print("no violation on this tree:", oc)
+        return 0
     d = data["data"]
     problem, oc, calls = D.check_datagram(d)
     print(f"{len(d)} bytes, outcome {oc}, {calls} calls")
